@@ -6,6 +6,7 @@ texts + direct evaluation of the property on every binding of real files / gener
 """
 import ast
 import os
+import re
 import sys
 
 from common import coq_list, coq_N, coq_nat, stdlib_files
@@ -15,6 +16,14 @@ ASSUMPTIONS = [
     'CPython parser positions (lineno/col_offset) of Name/arg/handler nodes are correct on ASCII lines (trusted, sampled by the direct evaluator)',
     'every layout of import/def/class that Python accepts flanks the name with the delimiter sets: established by the direct evaluator on real files and generated layouts, not by proof',
 ]
+
+
+def split_lines(text):
+    """lines as the tokenizer / ast count them (NOT str.splitlines, which also breaks at form feeds)"""
+    lines = re.split('\r\n|\r|\n', text)
+    if lines and lines[-1] == '' and len(lines) > 1:
+        lines.pop()
+    return lines or ['']
 
 
 def chars(s):
@@ -98,7 +107,7 @@ def binding_failures(fn, text, scope):
     """Direct evaluator of C11 on one analysed file: list of failing bindings."""
     from supp.name import ImportedName
     tree = scope.source.tree
-    lines = text.splitlines() or ['']
+    lines = split_lines(text)
     handlers = {(h.lineno, h.col_offset) for h in ast.walk(tree) if isinstance(h, ast.ExceptHandler)}
     bad = []
     n = 0
@@ -167,6 +176,8 @@ LAYOUTS = [
     'from . import {a}\nimport {a}', 'import {a}\nimport {a}', 'from {a} import {b}\nfrom {c} import {b}',
     'for i in [1]: print({a}); {a} = i', '{a} = 1; {b} = {a}; {a} = 2; {c} = {a}', 'while {a}: {b} = {a}; import {a}',
     'for {a} in [1]: {b} = {a}; {a} = {b}; def {b}(): pass',
+    'x = 1\n\x0c\nimport {a}\ndef {b}(): pass\nclass {c}: pass', '\x0c\nfrom {a} import {b} as {c}\n\x0c\nimport {d}',
+    'y = 2\n\x0b\nimport {a} as {b}', 'z = 3 # \x1c\nimport {a}\ndef {b}(): pass',
 ]
 NAMES = ['a', 'b', 'os', 'sys', 'x', 'foo', 'bar_1', 'de', 'd', 'def_', 'imp', 'as_', 'A', 'Cls', 'port', 'rom', 'f', 'e', 'n', '_p']
 
@@ -228,7 +239,7 @@ def goto_failures(ctx, fn, text):
         tree = ast.parse(text)
     except SyntaxError:
         return 0, []
-    lines = text.splitlines() or ['']
+    lines = split_lines(text)
     reads = [n for n in ast.walk(tree) if isinstance(n, ast.Name) and isinstance(n.ctx, ast.Load)]
     ctx.rng.shuffle(reads)
     bad = []
@@ -238,22 +249,70 @@ def goto_failures(ctx, fn, text):
         if not line.isascii():
             continue
         for col in {node.col_offset + len(node.id), node.col_offset + max(1, len(node.id) // 2)}:
-            try:
-                locs = location(proj, text, (node.lineno, col), fn)
-            except Exception:
-                continue          # crashes are C08's business
-            flat = []
-            for x in locs:
-                flat.extend(x if isinstance(x, list) else [x])
-            for x in flat:
-                if x['file'] != fn:
-                    continue
-                n += 1
-                l, c = x['loc']
-                ok = 1 <= l <= len(lines) and (lines[l - 1][c:c + len(node.id)] == node.id or lines[l - 1][c:c + 6] == 'except')
-                if not ok:
-                    bad.append((node.id, (node.lineno, col), (l, c), lines[l - 1][max(0, c - 8):c + 16] if 1 <= l <= len(lines) else None))
+            for use_fn in (fn, None):
+                try:
+                    locs = location(proj, text, (node.lineno, col), use_fn)
+                except Exception:
+                    continue          # crashes are C08's business
+                flat = []
+                for x in locs:
+                    flat.extend(x if isinstance(x, list) else [x])
+                for x in flat:
+                    if x['file'] not in (fn, None, '<string>'):
+                        continue
+                    n += 1
+                    l, c = x['loc']
+                    # a star-imported name has no identifier token of its own: its position is the `*`
+                    ok = 1 <= l <= len(lines) and (lines[l - 1][c:c + len(node.id)] == node.id or lines[l - 1][c:c + 6] == 'except'
+                                                   or lines[l - 1][c:c + 1] == '*')
+                    if not ok:
+                        bad.append((node.id, (node.lineno, col, 'filename' if use_fn else 'no filename'), (l, c),
+                                    lines[l - 1][max(0, c - 8):c + 16] if 1 <= l <= len(lines) else None))
     return n, bad
+
+
+def crossfile_failures(ctx):
+    """go-to-definition into ANOTHER project file: the position must show the identifier in THAT
+    file, whatever the cursor's own line and column are (in particular when the target sits on the
+    same line number as the cursor, right of its column)."""
+    from supp.project import Project
+    from supp.assistant import location
+    d = os.path.join(ctx.scratch, 'xproj')
+    os.makedirs(d, exist_ok=True)
+    names = ['alpha', 'beta', 'gamma', 'delta', 'eps']
+    target = ['class Holder:', '    pass', ''] + ['if True:        %s = %d' % (nm, i) for i, nm in enumerate(names)] + \
+             ['def func_one(): pass', 'class Cls_two: pass']
+    tpath = os.path.join(d, 'xmod.py')
+    open(tpath, 'w').write('\n'.join(target) + '\n')
+    tlines = target
+    everything = names + ['func_one', 'Cls_two']
+    main = ['from xmod import ' + ', '.join(everything)] + ['pass'] * 2 + [nm for nm in names] + ['func_one', 'Cls_two', ''] + \
+           ['print(%s)' % nm for nm in everything]
+    text = '\n'.join(main) + '\n'
+    fn = os.path.join(d, 'xmain.py')
+    proj = Project([d])
+    bad, n = [], 0
+    for ln, line in enumerate(main, 1):
+        for nm in everything:
+            i = line.find(nm)
+            if ln == 1 or i < 0 or line[i:].rstrip(')') != nm:
+                continue
+            for col in (i + len(nm), i + 1):
+                try:
+                    locs = location(proj, text, (ln, col), fn)
+                except Exception:
+                    continue
+                flat = []
+                for x in locs:
+                    flat.extend(x if isinstance(x, list) else [x])
+                for x in flat:
+                    n += 1
+                    l, c = x['loc']
+                    src = tlines if x['file'] == tpath else main
+                    ok = 1 <= l <= len(src) and 0 <= c and src[l - 1][c:c + len(nm)] == nm
+                    if not ok:
+                        bad.append((nm, (ln, col), (x['file'], l, c)))
+    return n, bad, text
 
 
 def run(ctx):
@@ -297,6 +356,10 @@ def run(ctx):
             for b in bad:
                 direct_bad.append((fn, text if fn.startswith(gdir) else None, (b[0], b[2], 'go-to-definition from %r reports a position whose text is %r' % (b[1], b[3]))))
     cov['goto_positions_checked'] = ng
+    nx, xbad, xtext = crossfile_failures(ctx)
+    cov['crossfile_goto_positions_checked'] = nx
+    for b in xbad[:5]:
+        direct_bad.append(('xmain.py', xtext, (b[0], b[2], 'cross-file go-to-definition from %r reports %r: the text there is not the identifier' % (b[1], b[2]))))
     for fn, text, b in direct_bad[:20]:
         ctx.violation('binding %r reported at %r but text there is %r (%s)' % (b[0], b[1], b[2], os.path.basename(fn)),
                       {'kind': 'direct', 'file': None if text else fn, 'source': text, 'binding': b})
